@@ -83,7 +83,8 @@ def run(ctx):
             scs.append(S.mk(sid, "corner", "handshake", steps, fresh=True, hs={"corner": c["corner"], "lz": c["lz"]}, seed=ctx.seed * 100 + sid))
     for k in range(400 if thorough else 40):     # honest exchanges with whatever values are drawn
         sid += 1
-        scs.append(S.mk(sid, "honest", "handshake", steps, fresh=True, hs={"corner": "", "lz": 0}, seed=ctx.seed * 100000 + sid))
+        # every fourth on a store that says "nothing stored" with (nil, nil) instead of a not-found error
+        scs.append(S.mk(sid, "honest", "handshake", steps, fresh=True, hs={"corner": "", "lz": 0}, seed=ctx.seed * 100000 + sid, nilstore=(k % 4 == 3)))
     nev, verdicts = hs_run(ctx, scs, "c06")
     C.write_evidence(ctx, "model_checking", {
         "states": mc.distinct, "transitions": mc.generated, "traces_validated_against_impl": len(scs),
